@@ -67,3 +67,64 @@ example : (deliver utf8 utf8.init [[0x68, 0xC3], [0xA9, 0x6C, 0x6C, 0x6F, 0xE2, 
     = [0x68, 0xE9, 0x6C, 0x6C, 0x6F, 0x20AC] := by decide
 
 end Cd
+
+namespace Cd
+
+/-- UTF-8 encoding of one scalar value (< 0x110000) -/
+def utf8Encode (c : Nat) : List Byte :=
+  if c < 0x80 then [c]
+  else if c < 0x800 then [0xC0 + c / 64, 0x80 + c % 64]
+  else if c < 0x10000 then [0xE0 + c / 4096, 0x80 + (c / 64) % 64, 0x80 + c % 64]
+  else [0xF0 + c / 262144, 0x80 + (c / 4096) % 64, 0x80 + (c / 64) % 64, 0x80 + c % 64]
+
+theorem utf8_one (c : Nat) (hc : c < 0x110000) (acc : List Nat) :
+    (utf8Encode c).foldl (fun (a : (Nat × Nat) × List Nat) b => let r := utf8Step a.1 b; (r.1, a.2 ++ r.2)) ((0, 0), acc)
+      = ((0, 0), acc ++ [c]) := by
+  unfold utf8Encode
+  by_cases h1 : c < 0x80
+  · simp [h1, utf8Step]
+  · by_cases h2 : c < 0x800
+    · simp only [h1, h2, if_false, if_true, List.foldl_cons, List.foldl_nil, utf8Step]
+      have a1 : ¬ (0xC0 + c / 64 < 0x80) := by omega
+      have a2 : (0xC0 ≤ 0xC0 + c / 64 ∧ 0xC0 + c / 64 < 0xE0) := by omega
+      simp only [a1, a2, if_false, if_true, and_self, List.append_nil]
+      simp; omega
+    · by_cases h3 : c < 0x10000
+      · simp only [h1, h2, h3, if_false, if_true, List.foldl_cons, List.foldl_nil, utf8Step]
+        have a1 : ¬ (0xE0 + c / 4096 < 0x80) := by omega
+        have a2 : ¬ (0xC0 ≤ 0xE0 + c / 4096 ∧ 0xE0 + c / 4096 < 0xE0) := by omega
+        have a3 : (0xE0 ≤ 0xE0 + c / 4096 ∧ 0xE0 + c / 4096 < 0xF0) := by omega
+        simp only [a1, a2, a3, if_false, if_true, List.append_nil]
+        simp; omega
+      · simp only [h1, h2, h3, if_false, List.foldl_cons, List.foldl_nil, utf8Step]
+        have a1 : ¬ (0xF0 + c / 262144 < 0x80) := by omega
+        have a2 : ¬ (0xC0 ≤ 0xF0 + c / 262144 ∧ 0xF0 + c / 262144 < 0xE0) := by omega
+        have a3 : ¬ (0xE0 ≤ 0xF0 + c / 262144 ∧ 0xF0 + c / 262144 < 0xF0) := by omega
+        simp only [a1, a2, a3, if_false, List.append_nil]
+        simp; omega
+
+/-- decoding the UTF-8 encoding of a text gives the text back and leaves the decoder in its initial state -/
+theorem utf8_decode_encode (cps : List Nat) (h : ∀ c ∈ cps, c < 0x110000) :
+    utf8.feed (0, 0) (cps.flatMap utf8Encode) = ((0, 0), cps) := by
+  have gen : ∀ (l : List Nat) (acc : List Nat), (∀ c ∈ l, c < 0x110000) →
+      (l.flatMap utf8Encode).foldl (fun (a : (Nat × Nat) × List Nat) b => let r := utf8Step a.1 b; (r.1, a.2 ++ r.2)) ((0, 0), acc)
+        = ((0, 0), acc ++ l) := by
+    intro l
+    induction l with
+    | nil => intro acc _; simp
+    | cons c t ih =>
+      intro acc hl
+      simp only [List.flatMap_cons, List.foldl_append]
+      rw [utf8_one c (hl c (by simp)) acc, ih _ (fun x hx => hl x (by simp [hx]))]
+      simp
+  have := gen cps [] h
+  simpa [utf8, ofStep] using this
+
+/-- **a multi-byte character cut by a read boundary is never corrupted**: any chunking of a well-formed UTF-8
+    stream delivers exactly the text, and the decoder ends in its initial state -/
+theorem utf8_any_chunking (cps : List Nat) (h : ∀ c ∈ cps, c < 0x110000) (chunks : List (List Byte))
+    (hc : chunks.flatten = cps.flatMap utf8Encode) : deliver utf8 (0, 0) chunks = ((0, 0), cps) := by
+  rw [deliver_eq_whole, hc]
+  exact utf8_decode_encode cps h
+
+end Cd
